@@ -10,7 +10,28 @@ from .sym import Sym
 
 
 class Injected(Exception):
-    """The marked exception raised by a probe that a fault plan tells to fail."""
+    """The marked exception raised by a probe that a fault plan tells to fail.  The failing node is kept in `.node`;
+    what `args` / `str()` look like varies with the node (arg-less like a bare `raise ValueError` or a failed assert,
+    several args, text full of format directives) - wrapping code must cope with every exception a user function raises."""
+
+    def __init__(self, node=None, style=None):
+        self.node = node
+        if style is None:
+            import zlib
+
+            style = zlib.crc32(repr(node).encode()) % 5
+        self.style = style
+        if style in (0, 1):
+            super().__init__(node)
+        elif style == 2:
+            super().__init__()
+        elif style == 3:
+            super().__init__(node, 7, {"k": "%s {} %d"})
+        else:
+            super().__init__("%%s {0} {x} %%(y)d \\ %s" % (node,))
+
+    def __reduce__(self):
+        return (type(self), (self.node, self.style))
 
 
 class InjectedBase(BaseException):
